@@ -1,88 +1,13 @@
 /-! Hand-frozen expectation (not regenerated): the attribute reads that do NOT go through the full resolution order.
-    Frozen from the unchanged tree; each row is a (function, accessor kind, attribute) the site table may contain with a
+    Frozen from the tree after the resolution repairs (2a8a64b, 30e4a3f: 79 entries before them); each row is a (function, accessor kind, attribute) the site table may contain with a
     kind other than `full`.  A new non-full read breaks `Props.C09.C09_sites_partial`. -/
 namespace Gomjml.Expect.AttrSites
 
 def knownNonFull : List (String × String × String) := [
-  ("mjml.(*MJMLComponent).Render", "noglobal", "background-color"),
-  ("mjml.(*MJMLComponent).Render", "noglobal", "dir"),
-  ("mjml.(*MJMLComponent).Render", "noglobal", "lang"),
-  ("mjml.(*MJMLComponent).collectColumnClassesFromComponent", "noglobal", "width"),
-  ("mjml.(*MJMLComponent).extractHeadMetadata", "noglobal", "<dyn:name>"),
-  ("mjml.(*MJMLComponent).generateCustomStyles", "noglobal", "inline"),
-  ("mjml.(*MJMLComponent).prepareBodySiblings", "noglobal", "width"),
-  ("mjml.collectInlineClassStyles", "noglobal", "inline"),
   ("mjml.createMJMLComponent", "raw", "lang"),
-  ("mjml/components.(*BaseComponent).ApplyDimensionStyles", "noglobal", "height"),
-  ("mjml/components.(*BaseComponent).ApplyDimensionStyles", "noglobal", "max-height"),
-  ("mjml/components.(*BaseComponent).ApplyDimensionStyles", "noglobal", "max-width"),
-  ("mjml/components.(*BaseComponent).ApplyDimensionStyles", "noglobal", "min-height"),
-  ("mjml/components.(*BaseComponent).ApplyDimensionStyles", "noglobal", "min-width"),
-  ("mjml/components.(*BaseComponent).ApplyDimensionStyles", "noglobal", "width"),
-  ("mjml/components.(*BaseComponent).ApplyFontStyles", "noglobal", "color"),
-  ("mjml/components.(*BaseComponent).ApplyFontStyles", "noglobal", "font-family"),
-  ("mjml/components.(*BaseComponent).ApplyFontStyles", "noglobal", "font-size"),
-  ("mjml/components.(*BaseComponent).ApplyFontStyles", "noglobal", "font-style"),
-  ("mjml/components.(*BaseComponent).ApplyFontStyles", "noglobal", "font-weight"),
-  ("mjml/components.(*BaseComponent).ApplyFontStyles", "noglobal", "line-height"),
-  ("mjml/components.(*BaseComponent).ApplyFontStyles", "noglobal", "text-align"),
-  ("mjml/components.(*BaseComponent).ApplyFontStyles", "noglobal", "text-decoration"),
-  ("mjml/components.(*BaseComponent).GetAttributeAsColor", "noglobal", "<dyn:name>"),
-  ("mjml/components.(*BaseComponent).GetAttributeAsPixel", "noglobal", "<dyn:name>"),
-  ("mjml/components.(*BaseComponent).GetAttributeAsSpacing", "noglobal", "<dyn:name>"),
-  ("mjml/components.(*MJAccordionElementComponent).getAttribute", "raw", "<dyn:name>"),
-  ("mjml/components.(*MJAccordionElementComponent).renderContent", "raw", "background-color"),
-  ("mjml/components.(*MJAccordionElementComponent).renderContent", "raw", "color"),
-  ("mjml/components.(*MJAccordionElementComponent).renderContent", "raw", "css-class"),
-  ("mjml/components.(*MJAccordionElementComponent).renderContent", "raw", "font-family"),
-  ("mjml/components.(*MJAccordionElementComponent).renderTitle", "raw", "background-color"),
-  ("mjml/components.(*MJAccordionElementComponent).renderTitle", "raw", "color"),
-  ("mjml/components.(*MJAccordionElementComponent).renderTitle", "raw", "css-class"),
-  ("mjml/components.(*MJAccordionElementComponent).renderTitle", "raw", "font-family"),
-  ("mjml/components.(*MJBodyComponent).Render", "noglobal", "background-color"),
-  ("mjml/components.(*MJCarouselComponent).renderCarouselImageContent", "raw", "alt"),
-  ("mjml/components.(*MJCarouselComponent).renderCarouselImageContent", "raw", "css-class"),
-  ("mjml/components.(*MJCarouselComponent).renderCarouselImageContent", "raw", "href"),
-  ("mjml/components.(*MJCarouselComponent).renderCarouselImageContent", "raw", "src"),
-  ("mjml/components.(*MJCarouselComponent).renderCarouselImageContent", "raw", "title"),
-  ("mjml/components.(*MJCarouselComponent).renderThumbnails", "raw", "alt"),
-  ("mjml/components.(*MJCarouselComponent).renderThumbnails", "raw", "css-class"),
-  ("mjml/components.(*MJCarouselComponent).renderThumbnails", "raw", "src"),
-  ("mjml/components.(*MJCarouselComponent).renderThumbnails", "raw", "thumbnails-src"),
-  ("mjml/components.(*MJColumnComponent).GetMSOTDStyles", "noglobal", "<dyn:name>"),
-  ("mjml/components.(*MJColumnComponent).GetMobileWidth", "noglobal", "mobile-width"),
-  ("mjml/components.(*MJColumnComponent).GetParsedWidth", "noglobal", "width"),
-  ("mjml/components.(*MJDividerComponent).Render", "raw", "container-background-color"),
-  ("mjml/components.(*MJGroupComponent).Render", "noglobal", "width"),
-  ("mjml/components.(*MJHeroComponent).calculateEffectiveHeight", "noglobal", "padding-bottom"),
-  ("mjml/components.(*MJHeroComponent).calculateEffectiveHeight", "noglobal", "padding-top"),
-  ("mjml/components.(*MJImageComponent).Render", "noglobal", "width"),
-  ("mjml/components.(*MJSectionComponent).Render", "noglobal", "<dyn:name>"),
-  ("mjml/components.(*MJSectionComponent).Render", "noglobal", "css-class"),
-  ("mjml/components.(*MJSectionComponent).Render", "noglobal", "padding-bottom"),
-  ("mjml/components.(*MJSectionComponent).Render", "noglobal", "padding-left"),
-  ("mjml/components.(*MJSectionComponent).Render", "noglobal", "padding-right"),
-  ("mjml/components.(*MJSectionComponent).Render", "noglobal", "padding-top"),
-  ("mjml/components.(*MJSectionComponent).getInnerContentWidth", "noglobal", "padding-left"),
-  ("mjml/components.(*MJSectionComponent).getInnerContentWidth", "noglobal", "padding-right"),
-  ("mjml/components.(*MJSocialComponent).Render", "raw", "container-background-color"),
-  ("mjml/components.(*MJSocialComponent).Render", "raw", "css-class"),
-  ("mjml/components.(*MJSocialComponent).Render", "raw", "padding-bottom"),
-  ("mjml/components.(*MJSocialComponent).Render", "raw", "padding-left"),
-  ("mjml/components.(*MJSocialComponent).Render", "raw", "padding-right"),
-  ("mjml/components.(*MJSocialComponent).Render", "raw", "padding-top"),
   ("mjml/components.(*MJSocialElementComponent).GetDefaultAttribute", "raw", "name"),
-  ("mjml/components.(*MJSocialElementComponent).Render", "raw", "css-class"),
   ("mjml/components.(*MJSocialElementComponent).Render", "raw", "name"),
-  ("mjml/components.(*MJSocialElementComponent).Render", "raw", "padding-bottom"),
-  ("mjml/components.(*MJSocialElementComponent).Render", "raw", "title"),
-  ("mjml/components.(*MJSocialElementComponent).getAttribute", "raw", "<dyn:name>"),
-  ("mjml/components.(*MJSocialElementComponent).getAttribute", "raw", "name"),
-  ("mjml/components.(*MJTableComponent).Render", "noglobal", "container-background-color"),
-  ("mjml/components.(*MJTableComponent).Render", "noglobal", "padding-bottom"),
-  ("mjml/components.(*MJTableComponent).Render", "noglobal", "padding-left"),
-  ("mjml/components.(*MJTableComponent).Render", "noglobal", "padding-right"),
-  ("mjml/components.(*MJTableComponent).Render", "noglobal", "padding-top")
+  ("mjml/components.(*MJSocialElementComponent).getAttribute", "raw", "name")
 ]
 
 end Gomjml.Expect.AttrSites
